@@ -6,6 +6,7 @@ import (
 	"fmt"
 	"os"
 	"sort"
+	"strings"
 	"sync"
 
 	"github.com/ethereum/go-ethereum/common"
@@ -51,6 +52,8 @@ type runner struct {
 	parentOf  map[common.Hash]common.Hash     // root -> parent root of the accepted Update that created its layer
 	maxIDEver uint64
 	recovers  []recoverRec // every Recover the recorded run started on a recoverable root
+
+	recStarted, recDone uint64 // Recover calls started / finished (historical readers)
 }
 
 type recoverRec struct {
@@ -122,6 +125,21 @@ func (rn *runner) finding(kind, format string, a ...any) *simcore.Violation {
 		return nil
 	}
 	return &simcore.Violation{Oracle: "stale-parent-link", Key: key, Msg: fmt.Sprintf(format, a...)}
+}
+
+// keyed reports a defect with its own stable key; a recorded one is counted and
+// (stop) ends the run quietly.
+func (rn *runner) keyed(oracle, key string, stop bool, format string, a ...any) *simcore.Violation {
+	if simcore.IsKnown(key) || os.Getenv("PDB_ASSUME_KNOWN") != "" {
+		rn.mu.Lock()
+		rn.res.KnownHit(key)
+		if stop {
+			rn.stop = true
+		}
+		rn.mu.Unlock()
+		return nil
+	}
+	return &simcore.Violation{Oracle: oracle, Key: key, Msg: fmt.Sprintf(format, a...)}
 }
 
 // logf appends to the actor's own observation log (determinism fingerprint).
@@ -270,6 +288,9 @@ func (rn *runner) applyMuts(c *content, ms []Mut) {
 	for n, mu := range ms {
 		a := mu.A % k.Accounts
 		val := s*64 + uint64(n)*8
+		if a == 1 && rn.keepTwoAccounts() && (mu.K == 3 || mu.K == 4) {
+			mu.K = 0
+		}
 		if a == 0 && (mu.K == 3 || mu.K == 4) {
 			// account 0 carries the per-transition salt: it is never destructed, so
 			// that every produced state is unique
@@ -312,6 +333,18 @@ func (rn *runner) applyMuts(c *content, ms []Mut) {
 		c[0] = &acct{Nonce: 1}
 	}
 	c[0].Bal = s*64 + 63
+	if rn.keepTwoAccounts() && c[1] == nil {
+		c[1] = &acct{Nonce: 1, Bal: 7}
+	}
+}
+
+// keepTwoAccounts: with trienode history indexing, a transition that changes
+// nothing but the account trie's root node (a one-account state) produces a
+// history without index elements, on which the indexer wedges (recorded finding
+// "indexer-wedged-by-elementless-history"); most runs keep two accounts alive
+// so that they get past it.
+func (rn *runner) keepTwoAccounts() bool {
+	return rn.p.K.Indexing && rn.p.K.TrienodeHistory >= 0 && !rn.p.TinyTrie && rn.p.K.Accounts >= 2
 }
 
 func (rn *runner) doOp(op Op) *simcore.Violation {
@@ -342,6 +375,8 @@ func (rn *runner) doOp(op Op) *simcore.Violation {
 		return rn.commit(op.T)
 	case "read":
 		return rn.read("M", *op.R, true)
+	case "hread":
+		return rn.hread("M", *op.R, false)
 	case "size":
 		return guard("size", func() { rn.w.db.Size() })
 	case "recover":
@@ -388,6 +423,10 @@ func (rn *runner) update(pst, child *state) *simcore.Violation {
 	rn.mu.Unlock()
 	if v != nil {
 		return v
+	}
+	if err != nil && rn.p.K.Indexing && rn.p.K.TrienodeHistory >= 0 && strings.Contains(err.Error(), "history indexing is out of order") {
+		return rn.keyed("update-failed", "indexer-wedged-by-elementless-history", true,
+			"Update(#%d on #%d) failed: %v. An earlier trienode history changed nothing but the account trie's root node (path \"\", skipped by the index scheme), so it had no index elements; batchIndexer.finish returns early for pending==0 without advancing the index metadata, and indexSingle then refuses every later history", child.idx, pst.idx, err)
 	}
 	if capOrphan && err != nil {
 		return rn.finding("flatten", "Update(#%d on #%d) had to flatten a layer that was a fork child of an earlier flattened layer (still in the layer tree, parent pointer left on the stale pre-flatten layer) and failed: %v", child.idx, pst.idx, err)
@@ -837,6 +876,25 @@ func (rn *runner) read(actor string, rd Read, certain bool) *simcore.Violation {
 			v := rn.finding("iterator", "%s seek=%d: the iterator yielded %d entries (error %v), the state has %d from the seek position; the layer is a fork child of a flattened layer and its parent pointer leads to the stale pre-flatten layers, whose write buffer is skipped silently", where, rd.Seek, len(itGot), itErr, len(itWant))
 			rn.mu.Lock()
 			return v
+		}
+	}
+	if isIter && !live && !dead {
+		// The root was dropped while the iterator was open. The property demands an
+		// error then, never a sequence that mixes two states. The merged iterator
+		// notices a stale disk layer only through its write-buffer sub-iterator; if
+		// that one has nothing left (or the key-value iterator is created after the
+		// flatten + flush), entries of the newer persisted state are yielded silently.
+		bad := itErr == nil && len(itGot) != len(itWant)
+		for i := 0; !bad && i < len(itGot); i++ {
+			bad = i >= len(itWant) || !eq(itGot[i][0], itWant[i][0]) || !eq(itGot[i][1], itWant[i][1])
+		}
+		if bad {
+			key := "iterator-mixes-states-after-drop"
+			if simcore.IsKnown(key) || os.Getenv("PDB_ASSUME_KNOWN") != "" {
+				rn.res.KnownHit(key)
+				return nil
+			}
+			return &simcore.Violation{Oracle: "iterator-mixes-states", Key: key, Msg: fmt.Sprintf("%s seek=%d: the root was dropped (flattened away) while the iterator was open; it yielded %d entries, error=%v, that are not a prefix of the %d entries of the requested state: entries of another (newer) state were delivered before any error", where, rd.Seek, len(itGot), itErr, len(itWant))}
 		}
 	}
 	if isIter {
